@@ -28,7 +28,7 @@ func oneOrigin(m *RunModel, o ssa.Value) string {
 	o = core.Unwrap(o)
 	switch x := o.(type) {
 	case *ssa.Parameter:
-		return "param:" + x.Name()
+		return "param:" + core.ParamName(x)
 	case *ssa.Extract:
 		if call, ok := x.Tuple.(*ssa.Call); ok {
 			n := core.CalleeName(&call.Call)
